@@ -5,6 +5,7 @@ package engine
 import (
 	"context"
 	"fmt"
+	f1log "github.com/form3tech-oss/f1/v2/internal/log"
 	"github.com/form3tech-oss/f1/v2/pkg/f1"
 	"log/slog"
 	"os"
@@ -229,7 +230,10 @@ type Spec struct {
 	// PushGateway: URL of a push gateway the run pushes its metrics to
 	PushGateway string `json:"push_gateway,omitempty"`
 	QuietLogger bool   `json:"quiet_logger,omitempty"` // the slog handler is disabled for every level
-	Scenario    string `json:"scenario,omitempty"`
+	// F1Logs: "json" | "text": the run logs through f1's own handler of that format (internal/log, what F1_LOG_FORMAT selects)
+	// instead of the capturing handler; the bytes land in the event log as out.f1log
+	Scenario string `json:"scenario,omitempty"`
+	F1Logs   string `json:"f1_logs,omitempty"`
 }
 
 func ms(n int) time.Duration { return time.Duration(n) * time.Millisecond }
@@ -425,6 +429,10 @@ func Prepare(spec Spec, l *Log, scenarioFn f1testing.ScenarioFn, hooks *Hooks, r
 	}
 	r := &Run{Spec: spec, Log: l}
 	out := NewOutputQuiet(l, spec.Interactive, spec.QuietLogger)
+	if spec.F1Logs != "" {
+		printer := ui.NewPrinter(&captureWriter{l, "out.print"}, &captureWriter{l, "out.eprint"})
+		out = ui.NewOutput(f1log.NewLogger(&captureWriter{l, "out.f1log"}, f1log.NewConfig().WithJSONFormat(spec.F1Logs == "json")), printer, spec.Interactive, true)
+	}
 	trig, err := BuildTrigger(&spec, out, hooks, r)
 	r.Spec = spec
 	if err != nil {
